@@ -255,6 +255,8 @@ def relabel(ctx, struct, how, dim, appended=()):
         f = lambda: ds.axes[dim].__setitem__(n - 1, new[0])
     elif how == 'set_axis':
         f = lambda: ds.set_axis(list(new), axis=dim)
+    elif how == 'axes[d]=Axis-renamed':     # the new Axis carries another name: relabelling and renaming at once
+        f = lambda: ds.axes.__setitem__(dim, ctx.da.Axis(ctx.nparray(new, kind=kind), 'time'))
     elif how == 'axes[pos]=Axis':       # the dimension referred to by its position in the dataset
         f = lambda: ds.axes.__setitem__(list(ds.dims).index(dim), ctx.da.Axis(ctx.nparray(new, kind=kind), dim))
     elif how == 'axes[negpos]=Axis':
@@ -314,6 +316,8 @@ def relabel(ctx, struct, how, dim, appended=()):
         d2 = holder['r']
         ok = ctx.AND(inv(ctx, ds), state_eq(ctx, ds, st), inv(ctx, d2), state_eq(ctx, d2, st, relabel={dim: full}))
         return ctx.done(ok, [ctx.observe(ds), ctx.observe(d2)])
+    if how == 'axes[d]=Axis-renamed':
+        return ctx.done(ctx.AND(inv(ctx, ds), state_eq(ctx, ds, st, relabel={dim: full}, rename={dim: 'time'})), ctx.observe(ds))
     return ctx.done(ctx.AND(inv(ctx, ds), state_eq(ctx, ds, st, relabel={dim: full})), ctx.observe(ds))
 
 
@@ -466,7 +470,7 @@ def templates():
         for dim in dims:
             for how in ('axis.name', 'ds.dims', 'set_axis', 'rename_axes', 'rename_axes_fn', 'var.axis.name', 'var.dims', 'rename_axes_copy'):
                 add('rename-%s-%s-%s' % (sname, dim, how), 'rename', cost=0.2, struct=sname, how=how, dim=dim)
-            for how in ('set_axis-callable', 'var.set_axis-callable', 'axis.set-callable', 'axes[d]=Axis', 'axes[pos]=Axis', 'axes[negpos]=Axis', 'axes[pos][i]=label', 'axes[d]=values', 'axes[d][i]=label', 'set_axis', 'set_axis_pos', 'attr', 'axis.values', 'var.axis[i]', 'var.set_axis', 'set_axis_copy', 'var.labels', 'var.attr'):
+            for how in ('axes[d]=Axis-renamed', 'set_axis-callable', 'var.set_axis-callable', 'axis.set-callable', 'axes[d]=Axis', 'axes[pos]=Axis', 'axes[negpos]=Axis', 'axes[pos][i]=label', 'axes[d]=values', 'axes[d][i]=label', 'set_axis', 'set_axis_pos', 'attr', 'axis.values', 'var.axis[i]', 'var.set_axis', 'set_axis_copy', 'var.labels', 'var.attr'):
                 add('relabel-%s-%s-%s' % (sname, dim, how), 'relabel', cost=0.3, struct=sname, how=how, dim=dim)
             add('wrongsize-%s-%s' % (sname, dim), 'wrong_size', cost=0.2, struct=sname, dim=dim)
             for how in ('setitem-label', 'ix', 'values', 'fill', 'put', 'imul'):
